@@ -117,7 +117,15 @@ func (g *Gen) libModel(f *ssa.Function, c *ssa.CallCommon, st *State) ([]Val, bo
 	case "math.Abs":
 		return one(Val{T: fmt.Sprintf("(fp.abs %s)", g.argVal(c, 0, st).T), S: sF64, G: rt()})
 	// ---------------- errors: a freshly made error is non-nil
-	case "errors.New", "fmt.Errorf", "github.com/openGemini/openGemini/lib/errno.NewError", "github.com/pkg/errors.New", "github.com/pkg/errors.Errorf", "github.com/pkg/errors.Wrap", "github.com/pkg/errors.WithStack":
+	case "github.com/pkg/errors.Wrap", "github.com/pkg/errors.Wrapf", "github.com/pkg/errors.WithStack", "github.com/pkg/errors.WithMessage", "github.com/pkg/errors.WithMessagef", "github.com/cockroachdb/errors.Wrap", "github.com/cockroachdb/errors.Wrapf", "github.com/cockroachdb/errors.WithStack":
+		// wrapping keeps nil-ness: Wrap(nil, ...) == nil
+		g.W.usedLib[name] = true
+		in := g.argVal(c, 0, st)
+		n := g.fresh("werr")
+		g.declare(n, "Iface")
+		g.assume("true", sEq(sEq(n, "(mk-iface 0 0)"), sEq(in.T, "(mk-iface 0 0)")))
+		return []Val{{T: n, S: sIface, G: rt()}}, true
+	case "errors.New", "fmt.Errorf", "github.com/openGemini/openGemini/lib/errno.NewError", "github.com/pkg/errors.New", "github.com/pkg/errors.Errorf":
 		g.W.usedLib[name] = true
 		n := g.fresh("err")
 		rs := g.sortOf(rt())
